@@ -7,6 +7,7 @@ package fzf
 import (
 	"fmt"
 	"os"
+	"runtime"
 	"strconv"
 	"strings"
 	"time"
@@ -76,6 +77,9 @@ func schedExplore(r *kit.Run, sc schedScenario, bound int) {
 	r.CountN(sc.name+":scheduling_points", int(st.Points))
 	r.CountN(sc.name+":shim_operations", int(st.Ops))
 	r.CountN(sc.name+":executions_run_incl_shared", st.Ran)
+	if g := int64(runtime.NumGoroutine()); g > r.Counters["max_live_goroutines_after_scenario"] {
+		r.Counters["max_live_goroutines_after_scenario"] = g
+	}
 	if st.MaxPoints > int(r.Counters[sc.name+":max_points"]) {
 		r.Counters[sc.name+":max_points"] = int64(st.MaxPoints)
 	}
